@@ -181,6 +181,85 @@ func c05ForgedRolloverNearWrap(c *Ctx) error {
 	return nil
 }
 
+// c05CloseWithTrafficInFlight: a link is closed while frames are still being handed to it, over a
+// connection whose Close takes a moment.  Whatever is written until the connection is gone is
+// still a sealed link frame: no payload may show in clear on the wire.
+func c05CloseWithTrafficInFlight(c *Ctx) error {
+	for rep, n := 0, c.Pick(2, 6); rep < n; rep++ {
+		linkCloseDelayA = 250 * time.Millisecond
+		p, err := newLinkedPair(relayStore, relayStore, nil, nil)
+		linkCloseDelayA = 0
+		if err != nil {
+			if p != nil {
+				p.close()
+			}
+			return fmt.Errorf("link setup: %w", err)
+		}
+		marker := fmt.Sprintf("CLOSING-%02d-PAYLOAD-MARKER", rep)
+		send := func(k int) error {
+			payload := append([]byte(fmt.Sprintf("%s-%04d-", marker, k)), randBytes(c, 40+c.Rng.IntN(300))...)
+			f, err := p.A.builder.NewFrameV1(p.A.id.IP, p.B.id.IP, frame.NetworkTraffic, nil, payload, nil)
+			if err != nil {
+				return err
+			}
+			if err := p.la.Send(f); err != nil {
+				f.ReturnToPool()
+			}
+			return nil
+		}
+		for k := 0; k < 10; k++ {
+			if err := send(k); err != nil {
+				return err
+			}
+		}
+		// drain what arrives meanwhile so that the receiver keeps reading
+		stopDrain := make(chan struct{})
+		go func() {
+			for {
+				select {
+				case f := <-p.B.peerIn:
+					f.ReturnToPool()
+				case <-stopDrain:
+					return
+				}
+			}
+		}()
+		time.Sleep(30 * time.Millisecond)
+		closed := make(chan struct{})
+		go func() { p.la.Close(nil); close(closed) }()
+		sent := 10
+		for t0 := time.Now(); time.Since(t0) < 400*time.Millisecond; {
+			_ = send(sent)
+			sent++
+			time.Sleep(time.Millisecond)
+		}
+		select {
+		case <-closed:
+		case <-time.After(3 * time.Second):
+		}
+		time.Sleep(20 * time.Millisecond)
+		close(stopDrain)
+		p.ab.mu.Lock()
+		issued := p.ab.captured
+		p.ab.mu.Unlock()
+		p.close()
+		c.Eval()
+		c.Count("fault:close-with-traffic-in-flight")
+		c.NonTrivial(fmt.Sprintf("closing/%d", rep))
+		clear := 0
+		for _, ch := range issued {
+			if bytes.Contains(ch, []byte(marker)) {
+				clear++
+			}
+		}
+		if clear > 0 {
+			c.Violate(fmt.Sprintf("the payload of %d frame(s) crossed the wire in clear while the link was closing (of %d frames handed to it)", clear, sent), "clear-on-wire", map[string]any{"clear": clear, "handed": sent})
+			break
+		}
+	}
+	return nil
+}
+
 func runC05(c *Ctx) error {
 	c.Res.Rule = "two real routers joined by a real link (real handshake, link reader/writer workers) over an in-memory connection relayed by the harness; frames of all message types and sizes (1..9000 bytes, a few near the 65535 link maximum in the thorough tier) are handed to the link while a wire adversary applies fault sequences: " +
 		"bit flips in the length prefix / header / ciphertext / tag, truncation, duplication, swapping, dropping, injection of random and crafted chunks (including chunks shorter than header+MAC); observed: frames reaching the remote frame handler, link closed, wire capture; " +
@@ -517,6 +596,9 @@ func runC05(c *Ctx) error {
 		p.close()
 	}
 	if err := c05ForgedRolloverNearWrap(c); err != nil {
+		return err
+	}
+	if err := c05CloseWithTrafficInFlight(c); err != nil {
 		return err
 	}
 	// LinkFrame.Unseal on arbitrary short and random chunks: error, never a panic
